@@ -50,6 +50,9 @@ pub struct ServerCase {
     pub endpoints: Vec<(String, String, u8, u8, u8)>,
     pub locales: Vec<String>,
     pub discovery: Vec<String>,
+    /// this many further locale ids of 40 characters each: a configuration file of tens or hundreds of kilobytes
+    #[serde(default)]
+    pub bulk: u16,
 }
 
 fn server_case() -> impl Strategy<Value = ServerCase> {
@@ -62,8 +65,9 @@ fn server_case() -> impl Strategy<Value = ServerCase> {
         prop::collection::vec((nonempty(), hostile(), 0u8..11, 0u8..5, any::<u8>()), 1..4),
         prop::collection::vec(hostile(), 0..3),
         prop::collection::vec(hostile(), 1..3),
+        prop_oneof![12 => Just(0u16), 1 => 200u16..4000],
     )
-        .prop_map(|(strings, numbers, floats, flags, users, endpoints, locales, discovery)| ServerCase { strings, numbers, floats, flags, users, endpoints, locales, discovery })
+        .prop_map(|(strings, numbers, floats, flags, users, endpoints, locales, discovery, bulk)| ServerCase { strings, numbers, floats, flags, users, endpoints, locales, discovery, bulk })
 }
 
 fn has_yaml_hostile(s: &str) -> bool {
@@ -128,7 +132,7 @@ fn server_roundtrip(ctx: &Ctx, c: &ServerCase) -> PResult {
             receive_buffer_size: c.numbers[11],
         },
         performance: opcua::server::config::Performance { single_threaded_executor: c.flags[3] },
-        locale_ids: c.locales.clone(),
+        locale_ids: c.locales.iter().cloned().chain((0..c.bulk).map(|i| format!("locale-{:05}-{}", i, "x".repeat(27)))).collect(),
         user_tokens,
         discovery_urls: c.discovery.clone(),
         default_endpoint,
@@ -288,7 +292,7 @@ fn client_roundtrip(ctx: &Ctx, c: &ClientCase) -> PResult {
 pub fn def() -> PropDef {
     PropDef {
         id: "C41",
-        rule: "ServerConfig (public fields, built directly) and ClientConfig (through ClientBuilder) with strings from a YAML-hostile set (empty, leading/trailing space, ': ', ' #', '- ', quotes, newline, tab, CR, backslash, ~, null, true/yes/on, 1e3, 0x1F, .inf, .nan, dates, anchors, tags, NEL/LS/PS/BOM/NUL, non-BMP) and their concatenations, printable ASCII and arbitrary Unicode; endpoint and user-token maps with 0..3 entries and hostile keys; limits over the usize edge set; finite floats incl. -0, subnormal and MAX; durations; optional paths; only configurations for which is_valid() holds are judged (the others are counted as excluded); oracle: save is Ok, load is Ok and equal (derived PartialEq), loaded.is_valid(); non-trivial = at least one string that YAML would type as a non-string or that needs quoting; distinct = distinct case",
+        rule: "ServerConfig (public fields, built directly) and ClientConfig (through ClientBuilder) with strings from a YAML-hostile set (empty, leading/trailing space, ': ', ' #', '- ', quotes, newline, tab, CR, backslash, ~, null, true/yes/on, 1e3, 0x1F, .inf, .nan, dates, anchors, tags, NEL/LS/PS/BOM/NUL, non-BMP) and their concatenations, printable ASCII and arbitrary Unicode; endpoint and user-token maps with 0..3 entries and hostile keys; limits over the usize edge set; finite floats incl. -0, subnormal and MAX; durations; optional paths; only configurations for which is_valid() holds are judged (the others are counted as excluded); oracle: save is Ok, load is Ok and equal (derived PartialEq), loaded.is_valid(); non-trivial = at least one string that YAML would type as a non-string or that needs quoting; distinct = distinct case; one server configuration in thirteen is padded to tens or hundreds of kilobytes",
         assumptions: &["floats are finite (NaN is not equal to itself under the derived PartialEq)", "equality is the crates' derived PartialEq"],
         abort_possible: false,
         parts: |tier| vec![part("server_config", tier.pick(1000, 250_000), server_case(), server_roundtrip), part("client_config", tier.pick(800, 200_000), client_case(), client_roundtrip)],
